@@ -324,7 +324,7 @@ KEY_STATUS = {'created': 'created', 'loaded': 'loaded', 'modified': 'modified', 
 KEY_ERRORS = ('TransactionIntegrityError', 'IntegrityError', 'UnexpectedError', 'CommitException')
 
 
-def key_history(ctx, rng, composite, nops):
+def key_history(ctx, rng, composite, nops, script=None, init_vals=None):
     """one entity with an integer primary key and one secondary key; random calls over several sessions; after every call the key
     index of the real cache, the statuses, key values and write bits of the cached objects, and after flushes the table, are compared
     with the model; every lookup is compared with what the program has (oracle)"""
@@ -351,12 +351,16 @@ def key_history(ctx, rng, composite, nops):
                 k = kv_of(vals)
                 if k is not None and tuple(k) in used: vals = [None for _ in comps]; k = None
                 if k is not None: used.add(tuple(k))
+                if init_vals is not None:
+                    if str(i) not in init_vals: continue
+                    vals = list(init_vals[str(i)])
                 E(id=i, **dict(zip(comps, vals))); init[i] = vals
         have = dict(init)                 # what the program has: id -> component values
         committed = dict(init)
         ops, mops, checks, findings = [], [], [], []
         held = {}
         nxt = 5
+        wf = True                         # the program is well-formed so far (premise OpOk of the theorems)
         db_session.__enter__()
         try:
             def cache(): return core.local.db2cache.get(db)
@@ -378,50 +382,69 @@ def key_history(ctx, rng, composite, nops):
             def call(fn):
                 try: return fn(), None
                 except Exception as e: return None, type(e).__name__
-            for step in range(nops):
+            def gen():
                 k = rng.choice(['create', 'create', 'set', 'set', 'set', 'delete', 'flush', 'load', 'get', 'get', 'get', 'get', 'new_session'])
-                mop = None; exp_out = None; after_flush = False; err = None
                 if k == 'create':
-                    i = nxt if rng.random() < 0.9 else rng.randrange(1, nxt)
                     vals = [rand_comp() for _ in comps]
+                    return {'k': 'create', 'i': nxt if rng.random() < 0.9 else rng.randrange(1, nxt), 'kv': kv_of(vals), 'vals': vals}
+                if k in ('set', 'delete'):
+                    cands = [i for i in held if held[i]._status_ not in core.del_statuses]
+                    if not cands: return None
+                    i = rng.choice(cands)
+                    if k == 'delete': return {'k': 'delete', 'i': i}
+                    j = rng.randrange(len(comps)); v = rand_comp()
+                    vals = list(have[i]); vals[j] = v
+                    return {'k': 'setKey', 'i': i, 'kv': kv_of(vals), 'j': j, 'val': v}
+                if k == 'flush': return {'k': 'flush'}
+                if k == 'new_session': return {'k': 'newSession'}
+                if k == 'load': return {'k': 'loadPk', 'i': rng.randrange(1, nxt + 1)}
+                return {'k': 'getBy', 'v': [rng.choice([0, 1, 2, 3]) for _ in comps]}
+            for step in range(nops if script is None else len(script)):
+                mop = dict(script[step]) if script is not None else gen()
+                if mop is None: continue
+                k = mop['k']
+                if k in ('setKey', 'delete') and (mop['i'] not in held or held[mop['i']]._status_ in core.del_statuses or mop['i'] not in have): continue
+                exp_out = None; after_flush = False; err = None
+                if k == 'create':
+                    i = mop['i']; vals = list(mop['vals'])
                     r, err = call(lambda: E(id=i, **dict(zip(comps, vals))))
-                    mop = {'k': 'create', 'i': i, 'kv': kv_of(vals)}
                     if err is None:
+                        if i in have and wf:
+                            # accepted although the program still has an object under this key (its row is not loaded): an ill-formed program;
+                            # what `delete` of the new object then leaves behind is the situation of C09_full_false (replayed by C09 on every
+                            # run) - the state tie goes on, the verdict on lookups stops here
+                            wf = False; ctx.count('key:oracle-off:accepted-create-under-a-primary-key-in-use')
                         held[i] = r; have[i] = vals; nxt = max(nxt, i + 1); exp_out = 'ok'
                     elif err == 'CacheIndexError': exp_out = 'refused'
-                elif k in ('set', 'delete'):
-                    cands = [i for i in held if held[i]._status_ not in core.del_statuses]
-                    if not cands: continue
-                    i = rng.choice(cands)
-                    if k == 'delete':
-                        _, err = call(held[i].delete); mop = {'k': 'delete', 'i': i}
-                        if err is None: have.pop(i, None); exp_out = 'ok'
-                    else:
-                        j = rng.randrange(len(comps)); v = rand_comp()
-                        vals = list(have[i]); vals[j] = v
-                        _, err = call(lambda: setattr(held[i], comps[j], v))
-                        mop = {'k': 'setKey', 'i': i, 'kv': kv_of(vals)}
-                        if err is None: have[i] = vals; exp_out = 'ok'
-                        elif err == 'CacheIndexError': exp_out = 'refused'
+                elif k == 'delete':
+                    i = mop['i']
+                    _, err = call(held[i].delete)
+                    if err is None: have.pop(i, None); exp_out = 'ok'
+                elif k == 'setKey':
+                    i = mop['i']; j = mop['j']; v = mop['val']
+                    vals = list(have[i]); vals[j] = v
+                    _, err = call(lambda: setattr(held[i], comps[j], v))
+                    if err is None: have[i] = vals; exp_out = 'ok'
+                    elif err == 'CacheIndexError': exp_out = 'refused'
                 elif k == 'flush':
-                    _, err = call(flush); mop = {'k': 'flush'}; after_flush = True
+                    _, err = call(flush); after_flush = True
                     if err is None: exp_out = 'ok'
-                elif k == 'new_session':
-                    _, err = call(commit); mop = {'k': 'newSession'}
+                elif k == 'newSession':
+                    _, err = call(commit)
                     if err is None:
                         db_session.__exit__(None, None, None); core.local.db_session = None; core.local.db_context_counter = 0
                         db_session.__enter__(); held = {}; committed = dict(have); exp_out = 'ok'
-                elif k == 'load':
-                    i = rng.randrange(1, nxt + 1)
-                    r, err = call(lambda: E[i]); mop = {'k': 'loadPk', 'i': i}; after_flush = True
+                elif k == 'loadPk':
+                    i = mop['i']
+                    r, err = call(lambda: E[i]); after_flush = True
                     if err == 'ObjectNotFound': exp_out = 'notFound'; err = None
                     elif err is None: held[i] = r; exp_out = 'found:%d' % i
                     want = 'found:%d' % i if i in have else 'notFound'
-                    if err is None and exp_out != want:
+                    if err is None and exp_out != want and wf:
                         findings.append({'form': 'getitem', 'got': exp_out, 'expected': want, 'ops': ops + [mop]})
                 else:
-                    vals = [rng.choice([0, 1, 2, 3]) for _ in comps]
-                    r, err = call(lambda: E.get(**dict(zip(comps, vals)))); mop = {'k': 'getBy', 'v': vals}; after_flush = True
+                    vals = list(mop['v'])
+                    r, err = call(lambda: E.get(**dict(zip(comps, vals)))); after_flush = True
                     if err is None:
                         exp_out = 'notFound' if r is None else 'found:%d' % r._pkval_
                         if r is not None: held[r._pkval_] = r
@@ -432,7 +455,7 @@ def key_history(ctx, rng, composite, nops):
                             # not loaded; the flush will be refused): either of them is "what the program has"
                             ctx.count('key:lookup-with-an-undetected-key-clash-pending')
                             if exp_out in ['found:%d' % m for m in match]: want = exp_out
-                        if exp_out != want:
+                        if exp_out != want and wf:
                             findings.append({'form': 'get-composite-key' if composite else 'get-unique', 'got': exp_out, 'expected': want, 'ops': ops + [mop]})
                 ops.append(mop)
                 ctx.count('key:op:%s:%s' % (mop['k'], err or exp_out.split(':')[0]))
@@ -446,7 +469,7 @@ def key_history(ctx, rng, composite, nops):
             try: db_session.__exit__(RuntimeError, RuntimeError('end'), None)
             except Exception: pass
             core.local.db_session = None; core.local.db_context_counter = 0
-        return {'composite': composite, 'init': [[i, kv_of(v)] for i, v in sorted(init.items())], 'ops': ops, 'mops': mops, 'checks': checks, 'findings': findings}
+        return {'composite': composite, 'init': [[i, kv_of(v)] for i, v in sorted(init.items())], 'init_vals': {str(i): v for i, v in init.items()}, 'ops': ops, 'mops': mops, 'checks': checks, 'findings': findings}
     finally:
         try: db.disconnect()
         except Exception: pass
@@ -463,7 +486,7 @@ def key_tie(ctx, nhist, nops):
         ctx.count('key:history:' + ('composite' if composite else 'unique'))
         for f in r['findings']:
             ctx.violation('a lookup by key inside the session does not return what the program has',
-                          {'key-model': 'composite' if composite else 'unique', 'rows': r['init'], 'ops': f['ops']}, observed=f['got'], expected=f['expected'],
+                          {'key-model': 'composite' if composite else 'unique', 'rows': r['init'], 'init_vals': r['init_vals'], 'ops': f['ops']}, observed=f['got'], expected=f['expected'],
                           key='%s:key-lookup' % f['form'])
         batch.append(r)
     if not ctx.driver.ok:
@@ -657,5 +680,13 @@ def replay(ctx, data):
         finally: r.close()
     elif 'watch' in inp:
         probe_cfg(ctx)
+    elif 'key-model' in inp and 'init_vals' in inp and all('k' in o for o in inp.get('ops', [])):
+        comp = inp['key-model'] == 'composite'
+        r = key_history(ctx, ctx.rng, comp, 0, script=inp['ops'], init_vals=inp['init_vals'])
+        ctx.case({'replay': True}, kind='replay')
+        for f in r['findings']:
+            ctx.violation('a lookup by key inside the session does not return what the program has',
+                          {'key-model': inp['key-model'], 'rows': r['init'], 'init_vals': r['init_vals'], 'ops': f['ops']}, observed=f['got'], expected=f['expected'],
+                          key='%s:key-lookup' % f['form'])
     else:
         run(ctx)
